@@ -47,6 +47,9 @@ enum Op {
     /// move to 1 ms before / 1 s after the earliest deadline
     ProbeBefore,
     ProbeAfter,
+    /// shortly before the earliest deadline every lease is acknowledged in a call of its own (no other request in
+    /// between), then the clock crosses the deadline: "once Acknowledge has returned ... never delivered again"
+    AckEachThenCross,
 }
 
 fn op_to_json(op: &Op) -> String {
@@ -59,6 +62,7 @@ fn op_to_json(op: &Op) -> String {
         Op::AbandonedPull => "[\"abandoned_pull\"]".to_string(),
         Op::ProbeBefore => "[\"probe_before\"]".to_string(),
         Op::ProbeAfter => "[\"probe_after\"]".to_string(),
+        Op::AckEachThenCross => "[\"ack_each_then_cross\"]".to_string(),
     }
 }
 fn ops_to_json(ops: &[Op]) -> String { format!("[{}]", ops.iter().map(op_to_json).collect::<Vec<_>>().join(",")) }
@@ -88,6 +92,7 @@ fn parse_ops(s: &str) -> Vec<Op> {
             "abandoned_pull" => { ops.push(Op::AbandonedPull); i += 1; }
             "probe_before" => { ops.push(Op::ProbeBefore); i += 1; }
             "probe_after" => { ops.push(Op::ProbeAfter); i += 1; }
+            "ack_each_then_cross" => { ops.push(Op::AckEachThenCross); i += 1; }
             "ack" => {
                 let mut ids = Vec::new();
                 i += 3; // , [
@@ -297,6 +302,27 @@ async fn run_history(ops: &[Op], ack_deadline_s: u64, uptime_days: u64) -> Resul
                     }
                 }
             }
+            Op::AckEachThenCross => {
+                stats_tag = "C02";
+                let now = Instant::now();
+                m.expire(now);
+                if let Some(dl) = m.leases.values().map(|(_, d)| *d).min() {
+                    if m.ghosts.is_empty() && dl > now + Duration::from_millis(600) && !m.uncertain_drift(dl - Duration::from_millis(500), 0) {
+                        tokio::time::advance(dl - Duration::from_millis(500) - now).await;
+                        for _ in 0..5 { tokio::task::yield_now().await; }
+                        m.expire(Instant::now());
+                        let ids: Vec<u64> = m.leases.keys().cloned().collect();
+                        for i in ids.iter() {
+                            // each Acknowledge call has RETURNED before the next one is made
+                            sub.acknowledge_messages(vec![AckId::new(*i)]).await.map_err(|_| setup("ack"))?;
+                        }
+                        for i in ids.iter() { if let Some((mid, _)) = m.leases.remove(i) { m.acked.push(mid); } }
+                        tokio::time::advance(Duration::from_millis(1500)).await;
+                        settle().await;
+                        m.expire(Instant::now());
+                    }
+                }
+            }
             Op::ProbeAfter => {
                 stats_tag = "C04";
                 if let Some(dl) = m.earliest() {
@@ -360,7 +386,7 @@ fn gen_ops(rng: &mut Rng, steps: usize) -> Vec<Op> {
             5 | 6 => { let n = 1 + rng.below(4); Op::Ack((0..n).map(|_| 1 + rng.below(next_ack_guess.min(12) + 2)).collect()) }
             7 | 8 => { let n = 1 + rng.below(4); Op::Modify((0..n).map(|_| (1 + rng.below(next_ack_guess.min(12) + 2), [0, 0, 1, 5, 30, 599, 600, 700][rng.below(8) as usize])).collect()) }
             9 => Op::AdvanceMs([50u64, 1000, 5000, 9990, 10_050, 30_000][rng.below(6) as usize]),
-            10 => if rng.below(3) == 0 { Op::AbandonedPull } else { Op::ProbeBefore },
+            10 => match rng.below(4) { 0 => Op::AbandonedPull, 1 => Op::AckEachThenCross, _ => Op::ProbeBefore },
             _ => Op::ProbeAfter,
         };
         ops.push(op);
@@ -604,7 +630,7 @@ fn cmd_paging(n: usize) -> i32 {
 // lifecycle histories over a small pool of names: namespaces as maps (C10), deletion consistency (C11),
 // global id uniqueness (C09), fan-out to exactly the attached subscriptions (C01), listing order (C13)
 #[derive(Clone, Debug)]
-enum LOp { CreateTopic(usize), DeleteTopic(usize, bool), CreateSub(usize, usize, bool), RaceCreateSub(usize, usize), DeleteSub(usize), Publish(usize, u8), DropHandles, DeleteHeld, CreateSubHeld(usize) }
+enum LOp { CreateTopic(usize), DeleteTopic(usize, bool), CreateSub(usize, usize, bool), RaceCreateSub(usize, usize), DeleteSub(usize), Publish(usize, u8), DropHandles, DeleteHeld, CreateSubHeld(usize), DeleteSubUnderLoad(usize) }
 fn lop_json(o: &LOp) -> String {
     match o {
         LOp::CreateTopic(t) => format!("[\"create_topic\",{}]", t),
@@ -616,6 +642,7 @@ fn lop_json(o: &LOp) -> String {
         LOp::DropHandles => "[\"drop_handles\"]".to_string(),
         LOp::DeleteHeld => "[\"delete_held\"]".to_string(),
         LOp::CreateSubHeld(s) => format!("[\"create_sub_held\",{}]", s),
+        LOp::DeleteSubUnderLoad(s) => format!("[\"delete_sub_under_load\",{}]", s),
     }
 }
 fn lops_json(v: &[LOp]) -> String { format!("[{}]", v.iter().map(lop_json).collect::<Vec<_>>().join(",")) }
@@ -635,6 +662,7 @@ fn parse_lops(s: &str) -> Vec<LOp> {
             "drop_handles" => out.push(LOp::DropHandles),
             "delete_held" => out.push(LOp::DeleteHeld),
             "create_sub_held" => out.push(LOp::CreateSubHeld(n(1))),
+            "delete_sub_under_load" => out.push(LOp::DeleteSubUnderLoad(n(1))),
             _ => {}
         }
     }
@@ -714,13 +742,50 @@ async fn run_lifecycle(ops: &[LOp]) -> Result<(), Fail> {
             LOp::Publish(t, n) => {
                 if let Ok(h) = tm.get_topic(&tname(*t)) {
                     let msgs = (0..*n).map(|i| TopicMessage::new(Bytes::from(vec![i]), None)).collect::<Vec<_>>();
-                    let resp = match h.publish_messages(msgs).await { Ok(r) => r, Err(_) => return fail("C01", "publish to a live topic failed".into()) };
+                    let resp = match h.publish_messages(msgs).await { Ok(r) => r, Err(_) => return fail("C01+C11", "publish to a live topic failed".into()) };
                     if resp.message_ids.len() != *n as usize { return fail("C08", "wrong number of message ids".into()); }
                     for id in resp.message_ids {
                         if all_ids.contains(&id.value) { return fail("C09", format!("message id {} was already issued to another message", id.value)); }
                         all_ids.push(id.value);
                     }
                     for s in topics[*t].subs.clone() { subs[s].backlog += *n as usize; }
+                }
+            }
+            LOp::DeleteSubUnderLoad(s) => {
+                // DeleteSubscription while 16 other requests (the capacity of the topic's mailbox) are in flight on its topic
+                match sm.get_subscription(&sname(*s, false)) {
+                    Ok(h) => {
+                        if !subs[*s].alive { return fail("C10", "get_subscription found a deleted / never created subscription".into()); }
+                        let t = subs[*s].topic;
+                        let live_topic = topics[t].alive && tgen[t] == subs[*s].topic_gen;
+                        let mut js = tokio::task::JoinSet::new();
+                        if live_topic {
+                            if let Ok(th) = tm.get_topic(&tname(t)) {
+                                for i in 0..16u8 {
+                                    let th = Arc::clone(&th);
+                                    js.spawn(async move {
+                                        if i % 2 == 0 { Some(th.publish_messages(vec![TopicMessage::new(Bytes::from(vec![i]), None)]).await.map(|r| r.message_ids.iter().map(|x| x.value).collect::<Vec<u64>>()).map_err(|_| ())) }
+                                        else { let _ = th.list_subscriptions(Paging::new(10, None)).await; None }
+                                    });
+                                }
+                            }
+                        }
+                        let r = h.delete().await;
+                        let mut published = 0usize;
+                        while let Some(x) = js.join_next().await {
+                            match x {
+                                Ok(Some(Ok(ids))) => { for id in ids { if all_ids.contains(&id) { return fail("C09", format!("message id {} was already issued to another message", id)); } all_ids.push(id); published += 1; } }
+                                Ok(Some(Err(()))) => return fail("C11+C01", "publish to a live topic failed while one of its subscriptions was being deleted (the topic still fans out to a subscription that is gone)".into()),
+                                _ => {}
+                            }
+                        }
+                        if r.is_err() { return fail("C11", "DeleteSubscription returned an error".into()); }
+                        subs[*s].alive = false;
+                        topics[t].subs.retain(|x| x != s);
+                        for o in topics[t].subs.clone() { subs[o].backlog += published; }
+                        if sm.get_subscription(&sname(*s, false)).is_ok() { return fail("C10+C11", "subscription still registered after DeleteSubscription returned OK".into()); }
+                    }
+                    Err(_) => { if subs[*s].alive { return fail("C10", "get_subscription does not find a live subscription".into()); } }
                 }
             }
             LOp::DropHandles => { held.clear(); }
@@ -750,7 +815,7 @@ async fn run_lifecycle(ops: &[LOp]) -> Result<(), Fail> {
         // produced it (create -> C10, delete -> C11), a wrong ORDER of the right set to C13
         let state_tag: &'static str = match op {
             LOp::CreateTopic(_) | LOp::CreateSub(_, _, _) | LOp::RaceCreateSub(_, _) | LOp::CreateSubHeld(_) => "C10",
-            LOp::DeleteTopic(_, _) | LOp::DeleteSub(_) | LOp::DeleteHeld | LOp::DropHandles => "C11",
+            LOp::DeleteTopic(_, _) | LOp::DeleteSub(_) | LOp::DeleteSubUnderLoad(_) | LOp::DeleteHeld | LOp::DropHandles => "C11",
             LOp::Publish(_, _) => "C01",
         };
         let set_or_order = |got: &Vec<String>, want: &Vec<String>| -> &'static str {
@@ -790,7 +855,7 @@ async fn run_lifecycle(ops: &[LOp]) -> Result<(), Fail> {
     Ok(())
 }
 fn gen_lops(rng: &mut Rng, steps: usize) -> Vec<LOp> {
-    (0..steps).map(|_| match rng.below(15) {
+    (0..steps).map(|_| match rng.below(16) {
         0 | 1 | 2 => LOp::CreateTopic(rng.below(2) as usize),
         3 => LOp::DeleteTopic(rng.below(2) as usize, rng.below(2) == 0),
         4 | 5 | 6 => LOp::CreateSub(rng.below(3) as usize, rng.below(2) as usize, rng.below(6) == 0),
@@ -799,6 +864,7 @@ fn gen_lops(rng: &mut Rng, steps: usize) -> Vec<LOp> {
         10 | 11 => LOp::Publish(rng.below(2) as usize, 1 + rng.below(2) as u8),
         12 => LOp::DeleteHeld,
         13 => LOp::CreateSubHeld(rng.below(3) as usize),
+        14 => LOp::DeleteSubUnderLoad(rng.below(3) as usize),
         _ => LOp::DropHandles,
     }).collect()
 }
@@ -887,8 +953,40 @@ async fn run_order_big() -> Result<(), Fail> {
     if pos != 0 && pos != 2500 { return Err(Fail { prop: "C08", what: format!("a message of another request was first-delivered at position {} inside one Publish request of 2500 messages", pos) }); }
     Ok(())
 }
+/// C10: creates of one absent name racing on real OS threads: exactly one wins, the others get ALREADY_EXISTS, and
+/// the winner's topic is the one the manager serves afterwards
+fn race_creates(names: usize, threads: usize, handle: &tokio::runtime::Handle) -> Result<(), Fail> {
+    use std::sync::atomic::{AtomicUsize, Ordering};
+    let tm = Arc::new(TopicManager::new());
+    let gate = Arc::new(AtomicUsize::new(0));
+    let wins: Arc<Vec<AtomicUsize>> = Arc::new((0..names).map(|_| AtomicUsize::new(0)).collect());
+    let mut hs = Vec::new();
+    for _ in 0..threads {
+        let (tm, gate, wins, handle) = (Arc::clone(&tm), Arc::clone(&gate), Arc::clone(&wins), handle.clone());
+        hs.push(std::thread::spawn(move || {
+            let _g = handle.enter();
+            for n in 0..names {
+                // spinning barrier: all threads start on name n together
+                gate.fetch_add(1, Ordering::SeqCst);
+                while gate.load(Ordering::SeqCst) < (n + 1) * threads { std::hint::spin_loop(); }
+                if tm.create_topic(TopicName::new("p", &format!("race{}", n))).is_ok() { wins[n].fetch_add(1, Ordering::SeqCst); }
+            }
+        }));
+    }
+    for h in hs { let _ = h.join(); }
+    for n in 0..names {
+        let w = wins[n].load(Ordering::SeqCst);
+        if w != 1 { return Err(Fail { prop: "C10", what: format!("{} threads raced to create the absent topic race{}: {} creates returned Ok, expected exactly 1", threads, n, w) }); }
+    }
+    Ok(())
+}
+
 fn cmd_order(rounds: usize) -> i32 {
     let rt = tokio::runtime::Builder::new_multi_thread().worker_threads(2).enable_all().build().unwrap();
+    if let Err(e) = race_creates(rounds.max(40) * 10, 4, rt.handle()) {
+        println!("WITNESS {{\"kind\":\"order\",{},\"publishers\":0,\"observed\":{:?},\"round\":0}}", prop_json(e.prop), e.what);
+        return 1;
+    }
     for r in 0..(rounds / 10 + 1) {
         let res = if r % 2 == 0 { tokio::runtime::Builder::new_current_thread().enable_all().build().unwrap().block_on(run_order_big()) } else { rt.block_on(run_order_big()) };
         if let Err(e) = res {
